@@ -36,3 +36,6 @@ class ModifiedZorgNotesEvent(Event):
     zettel_dir: Path
     zorg_page_path: Path
     modified_notes: list[Note]
+    # True iff the same file also contains new notes (i.e. notes that still
+    # need a ZID), in which case a NewZorgNotesEvent for this file follows.
+    has_new_notes: bool = False
